@@ -10,7 +10,7 @@ from .common import HYEONG, WORK, Stats, Violation, collect, finish, pmap, child
 from .eng_optdiff import big, push_value
 
 FRAGS = [b'\xed\x98\x95', b'\xed\x95\xad.', b'\xed\x9d\x91', b'\xed\x9d\x91.', b'?', b'\xe2\x99\xa5', b'\n', b'a', b'\x00',
-         b'\xff', b'\xc0\x80', b'\xed\xa0\x80', b'\xed\x98', b'\xf4\x90\x80\x80']
+         b'\xff', b'\xc0\x80', b'\xed\xa0\x80', b'\xed\x98', b'\xf4\x90\x80\x80', '하'.encode('utf-8'), '앙'.encode('utf-8')]
 STDINS = [b'', b'a', b'\xff', b'\xea\xb0', b'\xed\xa0\x80\n', b'ok\n\xff\n', b'x' * 65536 + b'\n']
 BUDGET = 2000
 
@@ -250,15 +250,16 @@ def _task(t):
 
 def run_c13(tier):
     st = Stats()
-    n = 3 if tier == 'quick' else 4
+    n = 3 if tier == 'quick' else 5
     contents = [b''.join(t) for k in range(0, n + 1) for t in itertools.product(FRAGS, repeat=k)]
     contents = list(dict.fromkeys(contents))
     tasks = [('names',)]
     sp = special_programs()
     for i in range(0, len(sp), 6):
         tasks.append(('special', sp[i:i + 6]))
-    for i in range(0, len(contents), 100):
-        tasks.append(('content', contents[i:i + 100], i))
+    step = 100 if tier == 'quick' else 1000
+    for i in range(0, len(contents), step):
+        tasks.append(('content', contents[i:i + step], i))
     collect(st, pmap(_task, [(t,) for t in tasks]))
     cov = {
         'states': st.n.get('contents', 0),
